@@ -50,6 +50,9 @@ def driver_functions(drv):
 def pick_functions(ctx, fns):
     """quick: a seeded third of the driven functions (at least 20); thorough: all."""
     fns = sorted(fns)
+    only = os.environ.get("VERIF_FUNCS")             # replay / debugging: an explicit list
+    if only:
+        return [f for f in fns if f in only.split(",")]
     if not ctx.quick or os.environ.get("VERIF_ALL_FUNCS"):
         return fns
     k = max(20, (len(fns) + 2) // 3)
@@ -67,12 +70,20 @@ def make_commands(ctx, cases, fns, faults_on_valid_sweeps):
             line += " tamper=" + tamper
         cmds.append({"id": i, "fn": fn, "mode": mode, "line": line, "case": case, "tamper": tamper})
 
+    # quick: fault injection on the baseline and on the largest valid value of every swept scalar
+    # (bigger sizes reach the multi-block / multi-allocation paths); thorough: on every valid case
+    maxvalid = {}
+    for c in cases:
+        if not c["viol"] and c["p"] and not c["p"].startswith("ok_"):
+            k = (c["fn"], c["p"])
+            maxvalid[k] = max(maxvalid.get(k, c["v"]), c["v"])
     for c in cases:
         if c["fn"] not in fns:
             continue
         add(c["fn"], "sweep", c["a"], c)
         valid = not c["viol"]
-        if c.get("fault") and valid and (c["p"] == "" or faults_on_valid_sweeps):
+        if c.get("fault") and valid and (c["p"] == "" or faults_on_valid_sweeps or
+                                         (maxvalid.get((c["fn"], c["p"])) == c["v"] and c["v"] != c["a"].get(c["p"] + "_base", None))):
             add(c["fn"], "fault", c["a"], c)
         if c["p"] == "":
             for t in sorted(c.get("tamper", [])):
@@ -244,14 +255,19 @@ def validate_heap(ctx, calls, invariants, tag, max_viol_per_fn=6):
     return acc, st, viol, rej, infra
 
 
-def exit_path(res):
-    """structural name of the exit a result line took"""
+def exit_path(res, evs=None):
+    """structural name of the exit a result line took (stable across tiers: no sizes, no positions)"""
     if res is None:
         return "?"
     if res["op"] == "fault":
-        return "ok" if res["failAt"] == 0 else "fault_k%d_of_%d" % (res["failAt"], res["nclean"])
+        if res["failAt"] == 0 or not res["failed"]:
+            return "ok"
+        kind = "alloc"
+        if evs and any(e["e"] == "ReallocFail" for e in evs):
+            kind = "realloc"
+        return "fault_%s" % kind
     if res["op"] == "auth":
-        return "auth_%s" % res["tamper"]
+        return "auth_err%d" % res["rc"] if res["rc"] else "auth_ok"
     return "ok" if res["rc"] == 0 else "err%d" % res["rc"]
 
 
@@ -297,6 +313,15 @@ def en(rc):
     return load_errnames().get(rc, "ERR_%s" % rc)
 
 
+def report(ctx, key, text, data=None):
+    """ctx.violation once per key and run"""
+    seen = ctx.__dict__.setdefault("_reported", set())
+    if key in seen:
+        return
+    seen.add(key)
+    ctx.violation(key, text, data)
+
+
 # ------------------------------------------------------------------ the check
 
 def run(ctx):
@@ -337,8 +362,10 @@ def run(ctx):
     seen_crash = set()
     for c, k, rc, err in crashes:
         case = c["case"]
-        if c["mode"] == "fault":
-            key = "crash:%s:fault:k%d" % (c["fn"], k)
+        if not case["viol"] and c["mode"] != "auth" and k == 0:
+            key = "crash:%s:valid" % c["fn"]             # valid arguments, no injected failure
+        elif c["mode"] == "fault":
+            key = "crash:%s:fault" % c["fn"]
         elif c["mode"] == "auth":
             key = "crash:%s:auth:%s" % (c["fn"], c["tamper"])
         else:
@@ -347,7 +374,7 @@ def run(ctx):
             continue
         seen_crash.add(key)
         what = re.search(r"(ERROR: AddressSanitizer: [^\n]*|runtime error: [^\n]*|SUMMARY: [^\n]*)", err)
-        ctx.violation(key, "%s crashed (rc=%s) on `%s`%s: %s" % (c["fn"], rc, c["line"],
+        report(ctx, key, "%s crashed (rc=%s) on `%s`%s: %s" % (c["fn"], rc, c["line"],
                       " with allocation %d failing" % k if k else "", what.group(1) if what else err[-200:]),
                       {"command": c["line"] + (" k0=%d" % k if k else ""), "stderr": err[-1200:],
                        "replay": "echo '<command>' | build/bin/drv_err-asanrel-* /dev/stdout /dev/null"})
@@ -361,11 +388,11 @@ def run(ctx):
     for i in bad:
         o = res[i - 1]
         c = byid.get(o["id"] // 1000)
-        key, text = classify_bad_line(o, c, cases_by_fn)
+        key, text = classify_bad_line(o, c, cases_by_fn, calls.get(o["id"]))
         groups.setdefault(key, []).append((o, c, text))
     for key, lst in groups.items():
         o, c, text = lst[0]
-        ctx.violation(key, text + (" (+%d more values of the same class)" % (len(lst) - 1) if len(lst) > 1 else ""),
+        report(ctx, key, text + (" (+%d more values of the same class)" % (len(lst) - 1) if len(lst) > 1 else ""),
                       {"commands": [x[1]["line"] for x in lst if x[1]][:12], "lines": [x[0] for x in lst][:4],
                        "replay": "echo '<command>' | VERIF_SEED=%d build/bin/drv_err-asanrel-* /dev/stdout /dev/null" % ctx.seed})
 
@@ -376,14 +403,14 @@ def run(ctx):
     resby = {o["id"]: o for o in res}
     for inv, fn, cid, evs in viol:
         o = resby.get(cid)
-        key = "%s:%s:%s" % (inv, fn, exit_path(o))
+        key = "%s:%s:%s" % (inv, fn, exit_path(o, evs))
         c = byid.get(cid // 1000)
-        ctx.violation(key, "%s violated by %s on exit path %s (rc=%s): %s" % (
-            inv, fn, exit_path(o), en(o["rc"]) if o else "?", describe_heap(inv, evs)),
+        report(ctx, key, "%s violated by %s on exit path %s (allocation %s of %s failing, rc=%s): %s" % (
+            inv, fn, exit_path(o, evs), o["failAt"] if o else "?", o["nclean"] if o else "?", en(o["rc"]) if o else "?", describe_heap(inv, evs)),
             {"command": (c["line"] if c else "") + (" k0=%d" % o["failAt"] if o and o["failAt"] else ""), "events": evs, "result": o})
     for fn, cid, evs, line in rej:
         o = resby.get(cid)
-        ctx.violation("reject:%s:%s" % (fn, exit_path(o)), "allocator trace of %s is not a behaviour of sm/Heap.tla: line %s cannot be taken" % (fn, line),
+        report(ctx, "reject:%s:%s" % (fn, exit_path(o)), "allocator trace of %s is not a behaviour of sm/Heap.tla: line %s cannot be taken" % (fn, line),
                       {"events": evs, "result": o})
     ev.cov["heap_calls_accepted"] = acc
     ev.cov["heap_trace_states"] = states
@@ -442,7 +469,7 @@ def describe_heap(inv, evs):
     return inv
 
 
-def classify_bad_line(o, c, cases_by_fn):
+def classify_bad_line(o, c, cases_by_fn, evs=None):
     fn = o["fn"]
     if o["op"] == "sweep":
         case = c["case"]
@@ -466,9 +493,9 @@ def classify_bad_line(o, c, cases_by_fn):
         return "E1:%s:%s:%s:%s" % (fn, case["p"] or "baseline", cl, kind), text
     if o["op"] == "fault":
         if o["failed"] and o["rc"] == 0:
-            return "E3:%s:%s" % (fn, exit_path(o)), "%s returns ERR_OK although allocation %d of %d failed" % (fn, o["failAt"], o["nclean"])
+            return "E3:%s:%s" % (fn, exit_path(o, evs)), "%s returns ERR_OK although allocation %d of %d failed" % (fn, o["failAt"], o["nclean"])
         if o["live"]:
-            return "E4:%s:%s" % (fn, exit_path(o)), "%s leaves %d block(s) allocated (allocation %d of %d failing, rc=%s)" % (fn, o["live"], o["failAt"], o["nclean"], en(o["rc"]))
+            return "E4:%s:%s" % (fn, exit_path(o, evs)), "%s leaves %d block(s) allocated (allocation %d of %d failing, rc=%s)" % (fn, o["live"], o["failAt"], o["nclean"], en(o["rc"]))
         return "fault:%s:%s" % (fn, exit_path(o)), "%s: rc=%s without a failed allocation" % (fn, en(o["rc"]))
     if o["op"] == "auth":
         pre, post, plain = o["pre"], o["post"], o["plain"]
@@ -501,7 +528,7 @@ def selftest(ctx, res, calls):
     bad_in = next((o for o in res if o["op"] == "sweep" and o["rc"] != 0), None)
     good = next((o for o in res if o["op"] == "sweep" and o["rc"] == 0), None)
     flt = next((o for o in res if o["op"] == "fault" and o["failed"] and o["rc"] != 0), None)
-    au = next((o for o in res if o["op"] == "auth" and o["rc"] != 0), None)
+    au = next((o for o in res if o["op"] == "auth" and o["rc"] != 0 and len(o["plain"]) >= 8 and o["post"] != o["plain"]), None)
     rows = []
     if bad_in:
         rows.append(dict(bad_in, rc=0)); rows.append(dict(bad_in, rc=bad_in["rc"] + 1)); rows.append(dict(bad_in, touched=True))
@@ -545,12 +572,20 @@ def selftest(ctx, res, calls):
             if x["e"] == "CallBegin":
                 x["failAt"] += 1
         muts.append(("reject", m))
-    for k, (want_inv, m) in enumerate(muts):
-        acc, st, viol, rej, infra = validate_heap(ctx, collections.OrderedDict([(m[0]["id"], m)]),
-                                                  ["TypeOK", "TE3", "TE4", "TNoBadFree", "FailAtExact"], "c09self%d" % k)
-        got = viol[0][0] if viol else ("reject" if rej else "accepted")
-        if got == want_inv:
+    n_ok += run_heap_selftests(ctx, muts, ["TypeOK", "TE3", "TE4", "TNoBadFree", "FailAtExact"], "c09self")
+    return n_ok
+
+
+def run_heap_selftests(ctx, muts, invariants, tag):
+    """muts: [(expected verdict, mutated event list)]; each is validated on its own (in parallel)"""
+    def one(k, want, m):
+        acc, st, viol, rej, infra = validate_heap(ctx, collections.OrderedDict([(m[0]["id"], m)]), invariants, "%s%d" % (tag, k))
+        got = viol[0][0] if viol else ("reject" if rej else ("accepted" if acc else "none"))
+        return want, got, infra
+    n_ok = 0
+    for want, got, infra in vlib.parallel([(lambda k=k, w=w, m=m: one(k, w, m)) for k, (w, m) in enumerate(muts)], n=8):
+        if got == want:
             n_ok += 1
         else:
-            ctx.note_inconclusive("self-test: mutated allocator trace expected %s, TLC said %s %s" % (want_inv, got, infra[:1]))
+            ctx.note_inconclusive("self-test: mutated allocator trace expected %s, TLC said %s %s" % (want, got, infra[:1]))
     return n_ok
